@@ -81,6 +81,15 @@ pub fn run(ctx: &Ctx) -> Outcome {
                   // an empty call first, and one in the middle
                   schedules.push(vec![p(0, Kind::InPlace), p(u, Kind::InPlace), p(0, Kind::InPlace), p(l - u, Kind::B2b)]);
               }
+              if dec.multi && l >= 4 * u {
+                  // caller-supplied closure shapes (block-level objects / cores): a closure call that leaves a tail of one
+                  // unit after the full groups, then the rest through the ordinary call
+                  let par = par_of(cfg);
+                  let a = ((par + 1) * u).min(l - 2 * u);
+                  for &c in dec.closures.iter().filter(|c| **c != 9) {
+                      schedules.push(vec![pc(a, c), p(l - a, Kind::InPlace)]);
+                  }
+              }
               if dec.multi {
                   // every call form of the front-end in turn (single-block entry points, closures, write_*), and unit by unit
                   for path in crate::c01::paths(&dec) {
